@@ -22,6 +22,7 @@ def ledger(P, q0, q1, q2, t1, t2, d0, d1, d2, m0, m1, m2, sus_t, sus_pool, K=7, 
     known = {}        # container_id -> ops
     ended = set()
     first_id = None
+    sus_due = None
     for t in range(K):
         asg = []
         for i, (at, q, ops) in enumerate(pipes):
@@ -49,6 +50,10 @@ def ledger(P, q0, q1, q2, t1, t2, d0, d1, d2, m0, m1, m2, sus_t, sus_pool, K=7, 
             return ""
         if bad_pool:
             return "C09:command_for_nonexistent_pool_not_rejected"
+        if sus:
+            # accepted suspension of a 10 GB container: write-out of max(1, 10//20) = 1 tick, so it has ended
+            # (one outcome: finished suspension) by the end of this very tick, whatever else the pool is doing
+            sus_due = first_id
         accepted = accepted + len(asg)
         live_now = {}
         for pool in ex.pools:
@@ -105,6 +110,11 @@ def ledger(P, q0, q1, q2, t1, t2, d0, d1, d2, m0, m1, m2, sus_t, sus_pool, K=7, 
                 if c.container_id not in ended:
                     ended.add(c.container_id)
                     suspended = suspended + 1
+        if sus_due is not None:
+            for pool in ex.pools:
+                for c in pool.suspending_containers:
+                    if c.container_id == sus_due:
+                        return "C09:suspended_container_never_reaches_its_outcome"
         # a container that disappeared produced an outcome
         for cid in live_before:
             if cid not in live_now and cid not in ended:
